@@ -437,7 +437,9 @@ def _main(modname, argv=None):
         "workers": args.workers,
     }
     cov.update(fin.get("coverage", {}))
-    cov["tree_under_test"] = _tree_id()
+    if not args.no_evidence and not args.only:
+        # (only when evidence is written: a check that watches which programs are started while it runs must not see this one start git)
+        cov["tree_under_test"] = _tree_id()
     ev = {
         "property_id": prop, "tier": tier, "seed": seed, "level": mod.LEVEL, "coverage": cov,
         "assumptions": list(getattr(mod, "ASSUMPTIONS", [])),
